@@ -179,3 +179,59 @@ pub fn bam_bases(seq: &[u8]) -> Vec<u8> {
         })
         .collect()
 }
+
+fn lossy(b: &[u8], max: usize) -> String {
+    let s: String = b.iter().take(max).map(|c| if (0x20..0x7f).contains(c) { *c as char } else { '.' }).collect();
+    if b.len() > max { format!("{s}…[{} bytes]", b.len()) } else { s }
+}
+
+/// A short SAM-like rendering of a record for diagnostics (long fields are cut; reference ids are
+/// printed as `#<id>`).
+pub fn summary(r: &RecDesc) -> String {
+    let id = |x: Option<usize>| x.map(|i| format!("#{i}")).unwrap_or_else(|| "*".into());
+    let cigar = if r.cigar.is_empty() {
+        "*".to_string()
+    } else {
+        let head: String = r.cigar.iter().take(8).map(|(k, n)| format!("{n}{}", *k as char)).collect();
+        if r.cigar.len() > 8 { format!("{head}…[{} ops]", r.cigar.len()) } else { head }
+    };
+    let aux: Vec<String> = r
+        .aux
+        .iter()
+        .map(|(t, v)| {
+            let body = match v {
+                AuxDesc::A(c) => format!("A:{}", lossy(&[*c], 1)),
+                AuxDesc::Z(s) => format!("Z:{}", lossy(s, 40)),
+                AuxDesc::H(s) => format!("H:{}", lossy(s, 40)),
+                AuxDesc::F(f) => format!("f:{f:e}"),
+                other => match (other.as_int(), other.array_len()) {
+                    (Some(n), _) => format!("{}:{n}", other.type_code()),
+                    (_, Some(n)) => {
+                        let s = format!("{other:?}");
+                        format!("{}[{n}]:{}", other.type_code(), if s.len() > 50 { format!("{}…", &s[..50]) } else { s })
+                    }
+                    _ => format!("{other:?}"),
+                },
+            };
+            format!("{}:{body}", lossy(t, 2))
+        })
+        .collect();
+    format!(
+        "name={} flag={:#x} ref={} pos={} mapq={} cigar={} mate={}:{} tlen={} seq={} qual={} aux=[{}]",
+        r.name.as_deref().map(|n| lossy(n, 40)).unwrap_or_else(|| "*".into()),
+        r.flags,
+        id(r.ref_id),
+        r.pos.unwrap_or(0),
+        r.mapq.map(|q| q.to_string()).unwrap_or_else(|| "*".into()),
+        cigar,
+        id(r.mate_ref_id),
+        r.mate_pos.unwrap_or(0),
+        r.tlen,
+        if r.seq.is_empty() { "*".into() } else { lossy(&r.seq, 40) },
+        match &r.qual {
+            None => "*".to_string(),
+            Some(q) => format!("{} scores {:?}…", q.len(), &q[..q.len().min(6)]),
+        },
+        aux.join(" "),
+    )
+}
